@@ -10,12 +10,15 @@ tvars == <<tid, l>>
 Ev == Traces[tid].ev
 
 NoTies(g) == g.pn * g.kd % 2 = 1
+(* ... or every tie is exact in floating point as well: no acceleration, period/tsamp = 2*nbins with nbins a power of two, so that
+   phase*nbins + 1/2 is t/2 + 1/2 exactly and int() of it is the rational truncation the model computes (edge samples go up) *)
+ExactTies(g) == g.kn = 0 /\ g.pd = 1 /\ g.pn = 2 * g.nbins /\ g.nbins \in {2, 4, 8}
 
 EvOK(e) ==
   LET g == e.g
       def == DefFoldFast(g, e.vals) IN
   /\ e.outcome = "ok"
-  /\ NoTies(g)
+  /\ (NoTies(g) \/ ExactTies(g))
   /\ Len(e.cells) = NCells(g)
   /\ IF e.api = "kernel"
      THEN \A k \in 1..NCells(g) : e.cells[k].sum = def[k][1] /\ e.cells[k].count = def[k][2]
